@@ -2,10 +2,12 @@
   Props/C16.lean — C16: a merged step is equivalent to the two steps it replaces.
   `merge_equiv` is conditional on the merged step applying; that it *does* apply whenever the pair does is
   proved for mark steps (`merge_succeeds_marks`), for flat replace steps in every schema
-  (`merge_succeeds_replace_flat`) and for replace steps with open slices over any ranges in schemas whose
-  `compatible_content` is transitive (`merge_succeeds_replace`; without that guard the statement is false,
-  `merge_needs_guard`).  Helper lemmas: Proofs/Merge.lean, Proofs/MarkMerge.lean, Proofs/FlatReplace.lean,
-  Proofs/MergeOpen.lean.
+  (`merge_succeeds_replace_flat`), for replace steps with open slices over any ranges in every schema when
+  the second step continues after the first one's content (`merge_succeeds_replace_forward`), and for both
+  `merge` branches in schemas whose `compatible_content` is transitive (`merge_succeeds_replace`; in the
+  second branch the statement is false without a guard, `merge_needs_guard`).  Helper lemmas:
+  Proofs/Merge.lean, Proofs/MarkMerge.lean, Proofs/FlatReplace.lean, Proofs/MergeOpen.lean,
+  Proofs/MergeForward.lean.
 -/
 import PM.Step
 import Proofs.StepToks
@@ -13,6 +15,7 @@ import Proofs.Merge
 import Proofs.MarkMerge
 import Proofs.FlatReplace
 import Proofs.MergeOpen
+import Proofs.MergeForward
 namespace PM.C16
 open PM
 
@@ -312,9 +315,9 @@ Guards (all decidable, all explicit):
   it with the node the first step had already merged that ancestor into — only the chain
   `second-slice node ~ merged node ~ to's ancestor` was checked.  (`compatTransB` holds for the bundled
   schemas; the harness evaluates it through the driver op `compatTrans`.)  The guard is needed for the
-  second `merge` branch (deleting backwards: `merge_needs_guard`); in the first branch one of the two
-  relations composed is the identity at every level, so the statement should hold there without it — not
-  proved (a search over merged pairs in a non-transitive schema found no failure in that branch).
+  second `merge` branch only (deleting backwards: `merge_needs_guard`); in the first branch one of the
+  two relations composed is the identity at every level and the statement holds in every schema:
+  `merge_succeeds_replace_forward` below.
 * the document is valid and in normal form, the two slices are in normal form and valid payloads
   (`openValid`, C01);
 * `ha1`, `ha2`: the ends of the content each step inserted do not fall between the halves of a surrogate
@@ -447,6 +450,73 @@ example : tinyS.apply (.replace 2 5 ⟨[par [120], par [121]], 1, 1⟩ false) o0
   simpa [Slice.size, fappend, addNode, par] using this
 end ExampleOpen
 
+/-! ### The first `merge` branch needs no schema guard
+
+In the first branch of `Step.merge` (the second step starts where the content the first one inserted ends:
+typing on, deleting forwards, pasting in sequence) the statement of `merge_succeeds_replace` holds in
+**every** schema: the second slice is closed on its left, so the second step runs down through every node
+that holds both of its ends without joining anything there — at those levels its before/after relation is
+the identity on node types and the first step's join checks are the ones the merged step repeats — and from
+the level where its ends part, the right end lies in nodes the first step did not touch, so there the first
+step's relation is the identity and the second step's join checks are the ones the merged step repeats
+(`outer_rrel_comp`, Proofs/MergeForward.lean).  No two `compatible_content` facts are ever composed. -/
+
+/-- **first `merge` branch, no schema guard**: a merged replace step applies whenever the two steps it
+    replaces apply in sequence, and yields the pair's result — the second step starts where the first one's
+    content ends; open slices, ranges across node boundaries, any schema -/
+theorem merge_succeeds_replace_forward (S : Schema) (d d1 d2 : Node)
+    (f t f' t' : Nat) (sl sl' : Slice) (m : Step)
+    (hv : S.checkNode d = true) (hn : fnorm d.kids = true)
+    (hsn : fnorm sl.content = true) (hsn' : fnorm sl'.content = true)
+    (hp : openValid S sl.openStart sl.openEnd sl.content = true)
+    (hp' : openValid S sl'.openStart sl'.openEnd sl'.content = true)
+    (h1 : S.apply (.replace f t sl false) d = .ok d1)
+    (h2 : S.apply (.replace f' t' sl' false) d1 = .ok d2)
+    (hm : (Step.replace f t sl false).merge (.replace f' t' sl' false) = some m)
+    (hfwd : (f : Int) + sl.size = f' ∧ sl.openEnd = 0 ∧ sl'.openStart = 0)
+    (ha1 : alignedAt d1.kids f = true ∧ alignedAt d1.kids (f + sl.size.toNat) = true)
+    (ha2 : alignedAt d2.kids f' = true ∧ alignedAt d2.kids (f' + sl'.size.toNat) = true) :
+    S.apply m d = .ok d2 := by
+  obtain ⟨ty, at_, mk, K, K1, rfl, rfl, hr1⟩ := fromReplace_parts S d d1 f t _ (apply_replace_from _ _ _ _ _ _ _ h1)
+  obtain ⟨ty', at', mk', K1', K2, he, rfl, hr2⟩ :=
+    fromReplace_parts S _ d2 f' t' _ (apply_replace_from _ _ _ _ _ _ _ h2)
+  cases he
+  simp only [Node.kids] at hn ha1 ha2
+  simp only [checkNode_elem, Bool.and_eq_true] at hv
+  obtain ⟨_, _, hwf1⟩ := replaceKids_guards S ty K f t sl K1 hr1
+  obtain ⟨_, _, hwf2⟩ := replaceKids_guards S ty K1 f' t' sl' K2 hr2
+  obtain ⟨hl1, hs1⟩ := Slice.toks_length_of_wf hwf1
+  obtain ⟨hl2, hs2⟩ := Slice.toks_length_of_wf hwf2
+  obtain ⟨c, a, e⟩ := sl
+  obtain ⟨c', a', b⟩ := sl'
+  simp only at hsn hsn' hp hp' hfwd
+  obtain ⟨hc1, rfl, rfl⟩ := hfwd
+  have hw1 := hwf1
+  have hw2 := hwf2
+  simp only [Slice.wf, Bool.and_eq_true, decide_eq_true_eq] at hw1 hw2
+  simp only [Step.merge, Bool.or_self, Bool.false_eq_true, if_false] at hm
+  rw [if_pos (by simp [hc1])] at hm
+  simp only [Option.some.injEq] at hm
+  subst hm
+  have hf' : f' = f + (Slice.mk c a 0).toks.length := by omega
+  have hsl : (if (Slice.mk c a 0).size + (Slice.mk c' 0 b).size = 0 then Slice.empty
+      else ⟨fappend c c', a, b⟩) = ⟨fappend c c', a, b⟩ := by
+    split
+    · rename_i hz
+      have e1 : c = [] := sliceToks_empty_content c a 0 hsn hw1.1 hw1.2 (.inr rfl) (by omega)
+      have e2 : c' = [] := sliceToks_empty_content c' 0 b hsn' hw2.1 hw2.2 (.inl rfl) (by omega)
+      subst e1; subst e2
+      have : a = 0 := by simpa [spineL] using hw1.1
+      subst this
+      have : b = 0 := by simpa [spineR] using hw2.2
+      subst this
+      rfl
+    · rfl
+  have key := replaceKids_merge_open_fwd S ty K K1 K2 f t f' t' c c' a b hv.1.1 hv.2 hn hsn hsn' hp hp'
+    hr1 hr2 hf' ha1.1 ⟨ha2.1, by rw [hl2]; exact ha2.2⟩
+  simp only [hsl, Schema.apply, Bool.false_eq_true, if_false, Schema.fromReplace, Schema.replace, key,
+    Except.map]
+
 /-! The guard `compatTransB` of `merge_succeeds_replace` cannot be dropped (second `merge` branch, deleting
     backwards): a schema in which `compatible_content` is not transitive — `doc "(A|B|C)*"`, `A "p q*"`,
     `B "q+"`, `C "(p|q)*"`, `p`, `q` leaves: `A ~ C` (both can start with `p`), `C ~ B` (`q`), but not
@@ -517,6 +587,54 @@ theorem merge_needs_guard :
   · simp [Step.merge, Slice.empty, Slice.size]
   · simp [Schema.apply, Schema.fromReplace, Schema.replace, g0, lp, lq, Slice.empty, replaceKids, inRange,
       depthAt, Slice.wf, spineL, spineR, outer, atLevel, twoWay, splitRight, c12, Except.map]
+/-! Non-vacuity of `merge_succeeds_replace_forward` in the same non-transitive schema: in
+    `doc(A(p, q), C(q), C(q))` delete 3 … 5 (joins the first `C` onto `A`), then 3 … 6 (deletes the `q`
+    that came over and joins the second `C` onto `A`); the merged step "delete 3 … 8" applies and gives
+    the pair's result `doc(A(p, q, q))`. -/
+private def w0 : Node := .elem 0 [] [] [.elem 1 [] [] [lp, lq], .elem 3 [] [] [lq], .elem 3 [] [] [lq]]
+private def w1 : Node := .elem 0 [] [] [.elem 1 [] [] [lp, lq, lq], .elem 3 [] [] [lq]]
+private def w2 : Node := .elem 0 [] [] [.elem 1 [] [] [lp, lq, lq]]
+
+private theorem fw1 : brS.apply (.replace 3 5 Slice.empty false) w0 = .ok w1 := by
+  have c13 : brS.compatibleContent 3 1 = true := by decide
+  have v1 : brS.validContent 1 [Node.leaf 4 [] [], Node.leaf 5 [] [], Node.leaf 5 [] []] = true := by decide
+  have v0 : brS.validContent 0 [Node.elem 1 [] [] [Node.leaf 4 [] [], Node.leaf 5 [] [], Node.leaf 5 [] []],
+      Node.elem 3 [] [] [Node.leaf 5 [] []]] = true := by decide
+  have fa1 : fromArray [Node.leaf 4 [] [], Node.leaf 5 [] [], Node.leaf 5 [] []]
+      = [Node.leaf 4 [] [], Node.leaf 5 [] [], Node.leaf 5 [] []] := by rfl
+  have fa0 : fromArray [Node.elem 1 [] [] [Node.leaf 4 [] [], Node.leaf 5 [] [], Node.leaf 5 [] []],
+        Node.elem 3 [] [] [Node.leaf 5 [] []]]
+      = [Node.elem 1 [] [] [Node.leaf 4 [] [], Node.leaf 5 [] [], Node.leaf 5 [] []],
+        Node.elem 3 [] [] [Node.leaf 5 [] []]] := by rfl
+  simp [Schema.apply, Schema.fromReplace, Schema.replace, w0, w1, lp, lq, Slice.empty, replaceKids, inRange,
+    depthAt, Slice.wf, spineL, spineR, outer, atLevel, twoWay, splitRight, Schema.close, fa1, fa0, v1, v0,
+    c13, Except.map]
+
+private theorem fw2 : brS.apply (.replace 3 6 Slice.empty false) w1 = .ok w2 := by
+  have c13 : brS.compatibleContent 3 1 = true := by decide
+  have v1 : brS.validContent 1 [Node.leaf 4 [] [], Node.leaf 5 [] [], Node.leaf 5 [] []] = true := by decide
+  have v0 : brS.validContent 0 [Node.elem 1 [] [] [Node.leaf 4 [] [], Node.leaf 5 [] [], Node.leaf 5 [] []]]
+      = true := by decide
+  have fa1 : fromArray [Node.leaf 4 [] [], Node.leaf 5 [] [], Node.leaf 5 [] []]
+      = [Node.leaf 4 [] [], Node.leaf 5 [] [], Node.leaf 5 [] []] := by rfl
+  have fa0 : fromArray [Node.elem 1 [] [] [Node.leaf 4 [] [], Node.leaf 5 [] [], Node.leaf 5 [] []]]
+      = [Node.elem 1 [] [] [Node.leaf 4 [] [], Node.leaf 5 [] [], Node.leaf 5 [] []]] := by rfl
+  simp [Schema.apply, Schema.fromReplace, Schema.replace, w1, w2, lp, lq, Slice.empty, replaceKids, inRange,
+    depthAt, Slice.wf, spineL, spineR, outer, atLevel, twoWay, splitRight, Schema.close, fa1, fa0, v1, v0,
+    c13, Except.map]
+
+example : compatTransB brS = false ∧ brS.apply (.replace 3 8 Slice.empty false) w0 = .ok w2 := by
+  refine ⟨by decide, ?_⟩
+  have := merge_succeeds_replace_forward brS w0 w1 w2 3 5 3 6 Slice.empty Slice.empty _
+    (by simp [w0, lp, lq, Schema.checkNode, Schema.checkKids]; decide)
+    (by simp [w0, lp, lq, Node.kids, fnorm, fnormKids, Node.norm, chainOk, adjOk])
+    (by simp [Slice.empty, fnorm, chainOk]) (by simp [Slice.empty, fnorm, chainOk])
+    (by simp [Slice.empty, openValid, rightOpenValid, Schema.checkKids])
+    (by simp [Slice.empty, openValid, rightOpenValid, Schema.checkKids])
+    fw1 fw2 rfl (by simp [Slice.empty, Slice.size])
+    (by simp [w1, lp, lq, Node.kids, Slice.empty, Slice.size, alignedAt])
+    (by simp [w2, lp, lq, Node.kids, Slice.empty, Slice.size, alignedAt])
+  simpa [Slice.empty, Slice.size] using this
 end NeedsGuard
 
 end PM.C16
